@@ -346,12 +346,12 @@ func ledgerEpoch(c *Ctx, mode string, nBlocks int, epoch int) {
 			other = extraNames[rnd.Intn(len(extraNames))]
 		}
 		ok_ := l.key(other)
-		kinds := []string{"transfer", "transfer", "transfer", "overdraft", "vote", "vote", "register", "topup", "unregister", "box", "boxfail", "payer", "payer-unsigned", "wrongkey", "setsigners", "ms-ok", "ms-dup", "ms-mall", "ms-short", "ms-ownkey", "extrasig", "pricey", "zero", "tamper", "tamper-box"}
+		kinds := []string{"transfer", "transfer", "transfer", "overdraft", "vote", "vote", "register", "topup", "unregister", "box", "boxfail", "payer", "payer-unsigned", "wrongkey", "setsigners", "ms-ok", "ms-dup", "ms-mall", "ms-short", "ms-ownkey", "extrasig", "pricey", "zero", "tamper", "tamper-box", "payer-self-forged"}
 		switch l.mode {
 		case "c11":
 			kinds = []string{"transfer", "transfer", "vote", "vote", "vote", "register", "topup", "unregister", "box", "payer"}
 		case "c06":
-			kinds = []string{"transfer", "payer", "payer-unsigned", "wrongkey", "setsigners", "ms-ok", "ms-dup", "ms-mall", "ms-short", "ms-ownkey", "ms-ownkey", "extrasig", "tamper", "tamper-box", "box"}
+			kinds = []string{"transfer", "payer", "payer-unsigned", "wrongkey", "setsigners", "ms-ok", "ms-dup", "ms-mall", "ms-short", "ms-ownkey", "ms-ownkey", "extrasig", "tamper", "tamper-box", "payer-self-forged", "box"}
 		}
 		k := kinds[rnd.Intn(len(kinds))]
 		if l.mode != "c06" && (rnd.Intn(12) == 0 || nearBoundary && rnd.Intn(4) == 0) {
@@ -571,6 +571,21 @@ func ledgerEpoch(c *Ctx, mode string, nBlocks int, epoch int) {
 			lt.subs = []*ledgerTx{mk(b, "sub", su2)}
 			lt.tampered = true
 			lt.class = "tamper-box-" + variant
+			return lt
+		case "payer-self-forged":
+			// V once endorsed the GAS of somebody else's reimbursement tx T0 (its payer signature is public). The forger
+			// re-uses T0's signature list, payer signature, gas price and gas limit in a tx FROM V, paid by V, with content of
+			// his choice. The payer signature covers no content; the sender's signature does not match: the tx must be dead.
+			t0 := txTransfer(uk, keyAddr(ok_), lemo(1), TxOpt{Exp: exp(), Msg: u_("psf0"), Payer: l.key(other)})
+			victim := keyAddr(l.key(other))
+			lt := mk(txEdit(t0, func(m map[string]interface{}) {
+				m["from"] = victim.String()
+				m["to"] = keyAddr(l.key("intruder")).String()
+				m["amount"] = lemo(int64(1 + rnd.Intn(5))).String()
+			}), k, u)
+			lt.payerKeys = []string{other}
+			lt.tampered = true
+			lt.class = "payer-self-forged"
 			return lt
 		case "extrasig":
 			// a plain account's tx with a surplus signature by a foreign key appended
